@@ -193,7 +193,12 @@ def run(tier, seed):
         if m.status != "ok":
             continue
         chk.evaluations += 1
-        if m.name in subj.compile_failures:
+        if m.name in subj.compile_failures and "no method named `to_v` found for tuple" in subj.compile_failures[m.name]:
+            # the harness's own rendering trait is implemented for tuples of up to 16 elements:
+            # an action selecting more symbols is ill-typed user code, not LALRPOP's doing
+            chk.inconclusive += 1
+            chk.count("harness_tuple_arity_limit")
+        elif m.name in subj.compile_failures:
             chk.violation({"kind": "accepted_grammar_does_not_compile", "sig": m.meta + ":" + subj.compile_failures[m.name].split("\n")[0][:80],
                            "summary": "%s (%s): %s" % (m.name, m.meta, subj.compile_failures[m.name][:500]),
                            "grammar": m.full_text, "rustc": subj.compile_failures[m.name]})
